@@ -172,11 +172,18 @@ class ModelRegistry:
 
         replaces = []
         replaces_ids = set()
+        # Groups are sets hashed by model index string: iterate them in registration order
+        # so that the result does not depend on the string hash seed
+        models_order = {model: i for i, model in enumerate(self.models)}
+        groups = sorted(
+            (sorted(group, key=models_order.__getitem__) for group in groups),
+            key=lambda group: models_order[group[0]]
+        )
         for group in groups:
             model_meta = self._merge(generator, *group)
             generator.optimize_type(model_meta)
             replaces_ids.add(model_meta.index)
-            replaces.append((model_meta, group))
+            replaces.append((model_meta, set(group)))
 
         for model_meta in self.models:
             generator.optimize_type(model_meta)
